@@ -186,3 +186,74 @@ def c04_join_column_collision(v, params):
         if len(set(names)) != len(names):
             colliding += 1
     return colliding > 0 and len(obs) == colliding and all('COLLIDE' in o for o in obs)
+
+
+# ---- C13 ---------------------------------------------------------------------------------------
+
+C13_SETTINGS_SITES = ('column.note', 'index.note', 'item.note', 'project.field', 'table.prop', 'column.prop', 'column.default', 'index.name',
+                      'expr.default', 'expr.subject')
+
+
+def c13_multiline_settings_text(v, params):
+    """Recorded defect (same root cause as C02-multiline-settings-text): multi-line text written inside a settings list, a project
+    field, a property value or an expression is indented together with the enclosing block on output and keeps that indentation;
+    property values also gain the leading line break of the triple-quote form.  Matches only a single isolated settings-position
+    site whose text came back equal up to such added indentation."""
+    c = v['case']
+    if v['kind'] != 'text-changed-by-round-trip' or len(c.get('sites', [])) != 1 or c['sites'][0] not in C13_SETTINGS_SITES:
+        return False
+    if '\n' not in c['text']:
+        return False
+    got, exp = v.get('observed'), v.get('expected')
+    if _reindented(got, exp):
+        return True
+    if c['sites'][0].endswith('.note') and isinstance(exp, str):
+        # at a note site the re-indented text is normalised again when parsed: got == normalise(first line + indented rest)
+        from .props.c13 import normalise_ref
+        lines = exp.split('\n')
+        for k in (4, 8, 12, 16):
+            cand = '\n'.join([lines[0]] + [(' ' * k + l) if l.strip() else l for l in lines[1:]])
+            if normalise_ref(cand) == got:
+                return True
+    return False
+
+
+def c13_triple_quote(v, params):
+    """Recorded defect: prepare_text_for_dbml escapes only the first of three consecutive single quotes (pinned by
+    test_prepare_text_for_dbml), so a text containing three single quotes in a row ends its literal early."""
+    c = v['case']
+    return v['kind'] == 'rendered-text-unparsable' and ("'" * 3) in c['text'] and len(c.get('sites', [])) == 1
+
+
+def c13_sql_multiline_expression(v, params):
+    """Recorded defect: the CREATE TABLE body is indented as a whole, so the continuation lines of a multi-line expression default
+    gain two blanks; matches only if that is the only difference."""
+    c = v['case']
+    if v['kind'] != 'sql-expression-not-verbatim' or '\n' not in c['text']:
+        return False
+    sql = v.get('observed') or ''
+    t = c['text']
+    import textwrap
+    cand = textwrap.indent('X DEFAULT (' + t + ')', '  ').split('X ', 1)[1]      # blank-only lines are left alone
+    return cand in sql and f'(({t}), "c")' in sql
+
+
+def c13_blank_line_whitespace(v, params):
+    """Recorded defect: a Note block is indented with textwrap.indent, which leaves whitespace-only lines alone, and the parser then
+    removes the block's indentation from every line: blanks on an otherwise blank interior line of a multi-line note are lost
+    (up to the depth of the block).  Matches only a block-note site whose text came back equal except for such lines."""
+    c = v['case']
+    if v['kind'] != 'text-changed-by-round-trip' or len(c.get('sites', [])) != 1:
+        return False
+    if c['sites'][0] not in ('table.note', 'group.note', 'project.note', 'sticky.text'):
+        return False
+    got, exp = v.get('observed'), v.get('expected')
+    if not isinstance(got, str) or not isinstance(exp, str) or '\n' not in exp:
+        return False
+    lines = exp.split('\n')
+    if not any(l and not l.strip() for l in lines[1:-1]):
+        return False
+    for k in (4, 8, 12):
+        if '\n'.join(l[k:] if (l and not l.strip()) else l for l in lines) == got:
+            return True
+    return False
